@@ -512,6 +512,20 @@ def r5_copy_on_partial(repo: Repo, rep):
             rep.check(R, not bad, fi.site(), fi.fq, "no write to wrapper state or to the caller's mapping", f"writes {bad}", str(sorted(bad)))
 
 
+def r10_user_names_own_the_keywords(repo: Repo, rep):
+    R = rep.rule("R-C13-10", "a wrapper method that receives the user's named values as `**mapping` declares no keyword-addressable parameter of its own next to it: every name is free for the user's function", floor=4,
+                 why="evaluate_function(self, vectorize=False, **inp) makes `vectorize` unusable as a parameter name of a user function: calling raises `got multiple values for keyword argument`")
+    uf = _cls(repo, "UserFunction")
+    for ci in [uf] + repo.subclasses(uf, strict=True):
+        for fi in ci.methods.values():
+            a = fi.node.args
+            if a.kwarg is None:
+                continue
+            rep.saw(fi)
+            own = [x.arg for x in a.args[1:] + a.kwonlyargs]
+            rep.check(R, not own, fi.site(), fi.fq, f"`**{a.kwarg.arg}` is the only keyword-addressable parameter", f"also {own}", f"{fi.name}: own keyword parameters {own}")
+
+
 def r7_set_default(repo: Repo, rep):
     R = rep.rule("R-C13-7", "set_default(**values) binds EVERY given name that is an argument of the function to the given value — also names that already have a default; "
                  "necessary / optional arguments are told apart by presence in the defaults, not by the default's value", floor=3,
@@ -692,6 +706,7 @@ def run(repo: Repo, rep):
     r5_copy_on_partial(repo, rep)
     r6_no_alias(repo, rep)
     r7_set_default(repo, rep)
+    r10_user_names_own_the_keywords(repo, rep)
     from .c14 import r5_module_state  # the declared arguments and defaults of a wrapper come from its own function object, not from a module-level table
     r5_module_state(repo, rep)
     from .c14 import r1_r2_effects, r1b_setup  # "wrapping changes neither ... nor user-supplied containers": conditions wrap every entry of the user's data-function dict
